@@ -50,6 +50,61 @@ Definition announce (origin name : bytes) (seq1 : N) (rs : list Route) (path see
 Definition announce_pre_fix (origin name : bytes) (seq1 : N) (rs : list Route) (path seenby : list bytes) : list (option bytes) :=
   advertise_groups origin name seq1 path seenby [rs].
 
+(** ** Re-flooding and replaying (HandleRouteAdvertise / SendFullTable) *)
+
+Definition two16 : N := 65536.
+(** fwdRoutes[i].Metric++ (uint16) *)
+Definition bump_metric (r : Route) : Route :=
+  let '(f, (pl, (pre, m))) := r in (f, (pl, (pre, (m + 1) mod two16))).
+
+(** what agent [local] re-floods for a received advertisement: every metric one
+    higher, itself in front of the path and at the end of the seen-by list,
+    origin, name and sequence number unchanged *)
+Definition reflood (local origin name : bytes) (seq : N) (rs : list Route) (path seenby : list bytes) : option bytes :=
+  encode_RA (origin, (name, (seq, (map bump_metric rs, (local :: path, (None, seenby ++ [local])))))).
+
+(** SendFullTable for a stored group of a foreign origin: the origin's sequence
+    number on every advertisement the splitter yields (one, when the group
+    fits), seen-by = path *)
+Fixpoint replay_groups (origin name : bytes) (seq : N) (path : list bytes) (groups : list (list Route)) : list (option bytes) :=
+  match groups with
+  | [] => []
+  | g :: gs => encode_RA (origin, (name, (seq, (g, (path, (None, path)))))) :: replay_groups origin name seq path gs
+  end.
+Definition replay_foreign (origin name : bytes) (seq : N) (rs : list Route) (path : list bytes) : list (option bytes) :=
+  replay_groups origin name seq path (split_routes rs).
+(** ... and for the replaying agent's own routes: a fresh announcement *)
+Definition replay_local (local name : bytes) (seq1 : N) (rs : list Route) : list (option bytes) :=
+  announce local name seq1 rs [local] [local].
+
+(** stored groups of foreign origins as SendFullTable forms them: (origin, (sequence, (path, routes))) *)
+Definition rgroup := (bytes * (N * (list bytes * list Route)))%type.
+Definition rg_same_adv (a b : rgroup) : bool :=
+  bytes_eqb (fst a) (fst b) && (fst (snd a) =? fst (snd b)).
+Definition path_bytes (p : list bytes) : bytes := enc idlist p.
+(** lexicographic order on byte strings (Go's string comparison) *)
+Fixpoint bytes_ltb (a b : bytes) : bool :=
+  match a, b with
+  | _, [] => false
+  | [], _ :: _ => true
+  | x :: a', y :: b' => (b2n x <? b2n y) || ((b2n x =? b2n y) && bytes_ltb a' b')
+  end.
+(** more routes wins; among equals the shorter, then the smaller, encoded path *)
+Definition rg_better (a b : rgroup) : bool :=
+  let sa := lenN (snd (snd (snd a))) in let sb := lenN (snd (snd (snd b))) in
+  let pa := path_bytes (fst (snd (snd a))) in let pb := path_bytes (fst (snd (snd b))) in
+  (sb <? sa) || ((sa =? sb) && ((lenN pa <? lenN pb) || ((lenN pa =? lenN pb) && bytes_ltb pa pb))).
+(** keep one group per (origin, sequence) *)
+Fixpoint rg_insert (g : rgroup) (acc : list rgroup) : list rgroup :=
+  match acc with
+  | [] => [g]
+  | h :: t => if rg_same_adv g h then (if rg_better g h then g :: t else h :: t) else h :: rg_insert g t
+  end.
+Definition select_groups (gs : list rgroup) : list rgroup := fold_right rg_insert [] gs.
+(** the whole foreign part of one replay *)
+Definition replay_table (name_of : bytes -> bytes) (gs : list rgroup) : list (option bytes) :=
+  concat (map (fun g : rgroup => let '(o, (s, (p, rs))) := g in replay_foreign o (name_of o) s rs p) (select_groups gs)).
+
 (** the neighbour: agent.handleRouteAdvertise decodes each payload and hands
     the routes to the flooder; an undecodable payload is dropped *)
 Definition routes_of (m : RA) : list Route := let '(_, (_, (_, (rs, _)))) := m in rs.
@@ -104,12 +159,18 @@ Definition entry_ok (e : entry) : bool :=
 
 (** * Correspondence oracle *)
 Inductive acase :=
-| CAnn (origin name : bytes) (seq1 : N) (routes : list Route) (path seenby : list bytes) (obs : list bytes).
+| CAnn (origin name : bytes) (seq1 : N) (routes : list Route) (path seenby : list bytes) (obs : list bytes)
+| CRep (origin name : bytes) (seq : N) (routes : list Route) (path : list bytes) (obs : list bytes)
+| CFwd (local origin name : bytes) (seq : N) (routes : list Route) (path seenby : list bytes) (obs : bytes).
 
 Definition acase_ok (c : acase) : bool :=
   match c with
   | CAnn o n s rs p sb obs =>
       list_eqb (option_eqb bytes_eqb) (announce o n s rs p sb) (map Some obs)
+  | CRep o n s rs p obs =>
+      list_eqb (option_eqb bytes_eqb) (replay_foreign o n s rs p) (map Some obs)
+  | CFwd l o n s rs p sb obs =>
+      option_eqb bytes_eqb (reflood l o n s rs p sb) (Some obs)
   end.
 Fixpoint amismatches_from (i : N) (cs : list acase) : list N :=
   match cs with
